@@ -2,66 +2,329 @@
 
 package time
 
+// C19 "Time and duration arithmetic is consistent".
+//
+// Values: Duration = symbolic int64 (all values). Time = real time.Unix(sec, nsec)
+// with symbolic sec/nsec, 0 <= nsec < 1e9, |instant| < 2^61 ns (+-73 years around
+// the epoch), no monotonic reading, zone Local/UTC/fixed. The real methods
+// time.Time.{Add,Sub,Before,After,Equal,Unix,UnixNano,Nanosecond} are interpreted.
+// Reference ("exact nanosecond arithmetic"): an instant is its normalised pair
+// (sec, nsec); "b is d ns after a" is decided by zzOffsetIs without division.
+
 import (
+	"math"
+	"math/bits"
 	"time"
 
 	"go.starlark.net/starlark"
 	"go.starlark.net/syntax"
 )
 
-const zzWin = int64(1) << 61
+const (
+	zzWin  = int64(1) << 61
+	zzNano = int64(1000000000)
+)
 
 // zzSymTime returns a Time built by the real time.Unix from symbolic
-// (sec, nsec), 0 <= nsec < 1e9, |instant| < 2^61 ns, and the instant in ns.
-func zzSymTime(name string) (Time, int64) {
-	sec := zzI64(name + "_sec")
-	nsec := zzI64(name + "_nsec")
-	zzAssume(zzAnd(nsec >= 0, nsec < 1000000000))
-	zzAssume(zzAnd(sec >= -zzWin/1000000000, sec < zzWin/1000000000))
-	return Time(time.Unix(sec, nsec)), sec*1000000000 + nsec
+// (sec, nsec), 0 <= nsec < 1e9, |instant| < 2^61 ns.
+func zzSymTime(name string) (t Time, sec, nsec int64) {
+	sec = zzI64(name + "_sec")
+	nsec = zzI64(name + "_nsec")
+	zzAssume(zzAnd(nsec >= 0, nsec < zzNano))
+	zzAssume(zzAnd(sec >= -(zzWin / zzNano), sec < zzWin/zzNano))
+	return Time(time.Unix(sec, nsec)), sec, nsec
 }
 
-func zzH19_probe_add() {
-	zzRelDiv(true)
-	t, tn := zzSymTime("t")
-	d := zzI64("d")
-	zzAssume(zzAnd(d > -zzWin, d < zzWin))
-	r, err := starlark.Binary(syntax.PLUS, t, Duration(d))
-	zzAssert(err == nil, "C19.probe.noerr")
-	rt, ok := r.(Time)
-	zzAssert(ok, "C19.probe.type")
-	zzAssert(time.Time(rt).UnixNano() == tn+d, "C19.probe.add")
+// zzPair reads back the normalised (sec, nsec) pair of a time value.
+func zzPair(t time.Time) (sec, nsec int64) { return t.Unix(), int64(t.Nanosecond()) }
+
+// zzOffsetIs reports whether instant b = (sb, nb) is exactly d nanoseconds after
+// instant a = (sa, na), both normalised (0 <= n < 1e9). No division: the second
+// difference is bounded and has the sign of d, hence ds*1e9 + dn is computed
+// without wrap-around and equals d as an integer, not merely modulo 2^64.
+func zzOffsetIs(sa, na, sb, nb, d int64) bool {
+	ds := sb - sa
+	norm := zzAnd(zzAnd(na >= 0, na < zzNano), zzAnd(nb >= 0, nb < zzNano))
+	near := zzAnd(ds >= -9223372037, ds <= 9223372037)
+	sign := zzAnd(zzImplies(d >= 0, ds >= 0), zzImplies(d <= 0, ds <= 0))
+	return zzAnd(zzAnd(norm, near), zzAnd(sign, ds*zzNano+(nb-na) == d))
+}
+
+func zzAddOvf(x, y int64) bool { // x+y is not representable
+	s := x + y
+	return zzOr(zzAnd(zzAnd(x >= 0, y >= 0), s < 0), zzAnd(zzAnd(x < 0, y < 0), s >= 0))
+}
+
+func zzSubOvf(x, y int64) bool { // x-y is not representable
+	s := x - y
+	return zzOr(zzAnd(zzAnd(x >= 0, y < 0), s < 0), zzAnd(zzAnd(x < 0, y >= 0), s >= 0))
+}
+
+func zzAbsU(x int64) uint64 { return uint64(zzIteI64(x < 0, -x, x)) }
+
+func zzMulOvf(x, y int64) bool { // x*y is not representable (128-bit product of magnitudes)
+	hi, lo := bits.Mul64(zzAbsU(x), zzAbsU(y))
+	neg := (x < 0) != (y < 0)
+	return zzOr(hi != 0, zzOr(lo > 1<<63, zzAnd(lo == 1<<63, zzNot(neg))))
+}
+
+// operand kinds
+const (
+	zzKT = iota // time
+	zzKD        // duration
+	zzKI        // int
+	zzKF        // float
+	zzKS        // other (string)
+	zzNK
+)
+
+var zzKindName = [...]string{"time", "dur", "int", "float", "str"}
+
+type zzOperand struct {
+	v         starlark.Value
+	sec, nsec int64   // time
+	d         int64   // duration
+	i         int64   // int, when iok
+	iok       bool    // int fits int64
+	f         float64 // float
+}
+
+func zzMakeOperand(name string, kind int) zzOperand {
+	var o zzOperand
+	switch kind {
+	case zzKT:
+		var t Time
+		t, o.sec, o.nsec = zzSymTime(name)
+		o.v = t
+	case zzKD:
+		o.d = zzI64(name + "_d")
+		o.v = Duration(o.d)
+	case zzKI:
+		if zzChoice(name+"_ishape", 2) == 0 {
+			o.i, o.iok = zzI64(name+"_i"), true
+			o.v = starlark.MakeInt64(o.i)
+		} else { // beyond int64
+			u := zzU64(name + "_u")
+			zzAssume(u > math.MaxInt64)
+			o.v = starlark.MakeUint64(u)
+		}
+	case zzKF:
+		o.f = zzF64(name + "_f")
+		o.v = starlark.Float(o.f)
+	default:
+		o.v = starlark.String("1h")
+	}
+	return o
+}
+
+var zzOps = [...]syntax.Token{syntax.PLUS, syntax.MINUS, syntax.STAR, syntax.SLASH, syntax.SLASHSLASH, syntax.PERCENT}
+var zzOpName = [...]string{"plus", "minus", "star", "slash", "slashslash", "percent"}
+
+func zzWantDur(id string, r starlark.Value, err error, want int64, exact bool) {
+	zzAssert(err == nil, id+".ok")
+	d, isD := r.(Duration)
+	zzAssert(isD, id+".type")
+	zzObserve("dur", int64(d))
+	// the value is the wrapped 64-bit result; it is the exact result unless the
+	// exact one is not representable, which ought to be rejected (region).
+	zzAssertExcept(zzAnd(int64(d) == want, exact), id+".exact", zzNot(exact))
+}
+
+// H19.1 dispatch: for every ordered pair of operand kinds with at least one
+// time/duration and every arithmetic operator, starlark.Binary (hence
+// Duration.Binary / Time.Binary on both sides) returns what the documented
+// table gives for the operands in the order written, or an error.
+// One harness per group of kind pairs (same body).
+
+//verif:unwind 40
+func zzH19_dispatch_dur_dur() { zzDispatch(zzKD, zzKD) }
+
+//verif:unwind 40
+func zzH19_dispatch_time_dur() {
+	if zzChoice("order", 2) == 0 {
+		zzDispatch(zzKT, zzKD)
+	} else {
+		zzDispatch(zzKD, zzKT)
+	}
+}
+
+//verif:unwind 40
+func zzH19_dispatch_time_time() { zzDispatch(zzKT, zzKT) }
+
+//verif:unwind 40
+func zzH19_dispatch_dur_int() {
+	if zzChoice("order", 2) == 0 {
+		zzDispatch(zzKD, zzKI)
+	} else {
+		zzDispatch(zzKI, zzKD)
+	}
+}
+
+//verif:unwind 40
+func zzH19_dispatch_dur_float() {
+	if zzChoice("order", 2) == 0 {
+		zzDispatch(zzKD, zzKF)
+	} else {
+		zzDispatch(zzKF, zzKD)
+	}
+}
+
+// time x {int, float, str}, duration x str, both orders
+//
+//verif:unwind 40
+func zzH19_dispatch_other() {
+	pairs := [...][2]int{{zzKT, zzKI}, {zzKI, zzKT}, {zzKT, zzKF}, {zzKF, zzKT}, {zzKT, zzKS}, {zzKS, zzKT}, {zzKD, zzKS}, {zzKS, zzKD}}
+	p := pairs[zzChoice("pair", len(pairs))]
+	zzDispatch(p[0], p[1])
+}
+
+func zzDispatch(lk, rk int) {
+	zzRelDivMode(1)
+	oi := zzChoice("op", len(zzOps))
+	op := zzOps[oi]
+	var x, y zzOperand
+	var d0 int64
+	if lk == zzKT && rk == zzKT && op == syntax.MINUS {
+		// two instants: y symbolic, x = y + d0 through the real Add (every pair of
+		// instants in the window arises this way: Add is proved exact below).
+		y = zzMakeOperand("y", zzKT)
+		d0 = zzI64("d0")
+		zzAssume(zzAnd(d0 > -zzWin, d0 < zzWin))
+		xt := time.Time(y.v.(Time)).Add(time.Duration(d0))
+		x.v = Time(xt)
+		x.sec, x.nsec = zzPair(xt)
+		zzAssert(zzOffsetIs(y.sec, y.nsec, x.sec, x.nsec, d0), "C19.lemma.add_exact")
+		// stepping stone (proved, then a lemma): the difference time.Time.Sub forms is d0
+		zzAssert((x.sec-y.sec)*zzNano+int64(int32(x.nsec)-int32(y.nsec)) == d0, "C19.lemma.subdiff")
+	} else {
+		x = zzMakeOperand("x", lk)
+		y = zzMakeOperand("y", rk)
+	}
+	r, err := starlark.Binary(op, x.v, y.v)
+	zzObserve("failed", err != nil)
+	id := "C19.dispatch." + zzKindName[lk] + "_" + zzOpName[oi] + "_" + zzKindName[rk]
+	switch {
+	// ---- documented: duration + duration, duration - duration
+	case op == syntax.PLUS && lk == zzKD && rk == zzKD:
+		zzWantDur(id, r, err, x.d+y.d, zzNot(zzAddOvf(x.d, y.d)))
+	case op == syntax.MINUS && lk == zzKD && rk == zzKD:
+		zzWantDur(id, r, err, x.d-y.d, zzNot(zzSubOvf(x.d, y.d)))
+
+	// ---- time + duration, duration + time, time - duration
+	case op == syntax.PLUS && (lk == zzKT && rk == zzKD || lk == zzKD && rk == zzKT):
+		t, d := x, y.d
+		if lk == zzKD {
+			t, d = y, x.d
+		}
+		zzAssert(err == nil, id+".ok")
+		rt, isT := r.(Time)
+		zzAssert(isT, id+".type")
+		rs, rn := zzPair(time.Time(rt))
+		zzObserve("rs", rs)
+		zzObserve("rn", rn)
+		zzAssert(zzOffsetIs(t.sec, t.nsec, rs, rn, d), id+".exact")
+	case op == syntax.MINUS && lk == zzKT && rk == zzKD:
+		zzAssert(err == nil, id+".ok")
+		rt, isT := r.(Time)
+		zzAssert(isT, id+".type")
+		rs, rn := zzPair(time.Time(rt))
+		zzObserve("rs", rs)
+		zzObserve("rn", rn)
+		// t - d = r  <=>  t is d after r. (-d is not representable for the minimum duration.)
+		zzAssertExcept(zzOffsetIs(rs, rn, x.sec, x.nsec, y.d), id+".exact", y.d == math.MinInt64)
+
+	// ---- time - time
+	case op == syntax.MINUS && lk == zzKT && rk == zzKT:
+		zzWantDur(id, r, err, d0, true)
+
+	// ---- duration * int, int * duration (commutative)
+	case op == syntax.STAR && (lk == zzKD && rk == zzKI || lk == zzKI && rk == zzKD):
+		d, n := x, y
+		if lk == zzKI {
+			d, n = y, x
+		}
+		if !n.iok {
+			zzAssert(err != nil, id+".bigint_rejected")
+			break
+		}
+		zzWantDur(id, r, err, d.d*n.i, zzNot(zzMulOvf(d.d, n.i)))
+
+	// ---- duration / duration = float
+	case op == syntax.SLASH && lk == zzKD && rk == zzKD:
+		if y.d == 0 {
+			zzAssert(err != nil, id+".zero_rejected")
+			break
+		}
+		zzAssert(err == nil, id+".ok")
+		f, isF := r.(starlark.Float)
+		zzAssert(isF, id+".type")
+		zzObserve("f", float64(f))
+		// mirror form (decided by term identity; the IEEE quotient itself is trusted)
+		zzAssert(zzSameF64(float64(f), float64(x.d)/float64(y.d)), id+".quotient")
+
+	// ---- duration / int = duration (truncated quotient)
+	case op == syntax.SLASH && lk == zzKD && rk == zzKI:
+		if !y.iok {
+			zzAssert(err != nil, id+".bigint_rejected")
+			break
+		}
+		if y.i == 0 {
+			zzAssert(err != nil, id+".zero_rejected")
+			break
+		}
+		// MinInt64 / -1 is not representable
+		zzWantDur(id, r, err, x.d/y.i, zzNot(zzAnd(x.d == math.MinInt64, y.i == -1)))
+
+	// ---- duration / float = duration
+	case op == syntax.SLASH && lk == zzKD && rk == zzKF:
+		if y.f == 0 {
+			zzAssert(err != nil, id+".zero_rejected")
+			break
+		}
+		// mirror form: truncation of the IEEE quotient of the operands in this order
+		// (a NaN quotient: zzH19_durfloat_nan; overflowing quotients are outside the claim)
+		zzWantDur(id, r, err, int64(float64(x.d)/y.f), true)
+
+	// ---- duration // duration = int (floored quotient, as // on ints)
+	case op == syntax.SLASHSLASH && lk == zzKD && rk == zzKD:
+		if y.d == 0 {
+			zzAssert(err != nil, id+".zero_rejected")
+			break
+		}
+		if B := zzParam("floordiv_bits", 32, 64); B < 64 { // symbolic/symbolic 64-bit division is slow
+			lim := int64(1) << uint(B-1)
+			zzAssume(zzAnd(zzAnd(x.d >= -lim, x.d < lim), zzAnd(y.d >= -lim, y.d < lim)))
+		}
+		zzAssert(err == nil, id+".ok")
+		n, isI := r.(starlark.Int)
+		zzAssert(isI, id+".type")
+		got, fits := n.Int64()
+		zzObserve("q", got)
+		q, rem := x.d/y.d, x.d%y.d
+		adj := zzAnd(rem != 0, (rem < 0) != (y.d < 0))
+		minq := zzAnd(x.d == math.MinInt64, y.d == -1) // quotient 2^63
+		want := q - zzIteI64(adj, 1, 0)
+		zzAssertExcept(zzAnd(zzAnd(fits, got == want), zzNot(minq)), id+".floor", zzOr(adj, minq))
+
+	// ---- everything else is undocumented and must be rejected
+	case op == syntax.MINUS && lk == zzKD && rk == zzKT:
+		// known: evaluated as time - duration
+		zzAssertExcept(err != nil, id+".rejected", true)
+	case op == syntax.SLASH && lk == zzKF && rk == zzKD:
+		// known: evaluated as duration / float (x.f == 0 is rejected as division by zero)
+		zzAssertExcept(err != nil, id+".rejected", x.f != 0)
+	default:
+		zzAssert(err != nil, id+".rejected")
+	}
 	zzReach("end")
 }
 
-func zzH19_probe_sub() {
-	zzRelDiv(true)
-	u, un := zzSymTime("u")
-	d := zzI64("d")
-	zzAssume(zzAnd(d > -zzWin, d < zzWin))
-	t := Time(time.Time(u).Add(time.Duration(d)))
-	// stepping stone for the solver (proved, then available as a lemma): the
-	// second/nanosecond difference that time.Time.Sub forms is d.
-	tt, uu := time.Time(t), time.Time(u)
-	zzAssert((tt.Unix()-uu.Unix())*1000000000+int64(int32(tt.Nanosecond())-int32(uu.Nanosecond())) == d, "C19.lemma.subdiff")
-	r, err := starlark.Binary(syntax.MINUS, t, u)
-	zzAssert(err == nil, "C19.probe.noerr")
-	rd, ok := r.(Duration)
-	zzAssert(ok, "C19.probe.type")
-	zzAssert(int64(rd) == d, "C19.probe.sub")
-	zzAssert(int64(rd) == time.Time(t).UnixNano()-un, "C19.probe.sub2")
-	zzReach("end")
-}
-
-func zzH19_probe_alg() {
-	zzRelDiv(true)
-	t, _ := zzSymTime("t")
-	d := zzI64("d")
-	zzAssume(zzAnd(d > -zzWin, d < zzWin))
-	r1, err := starlark.Binary(syntax.PLUS, t, Duration(d))
-	zzAssert(err == nil, "C19.probe.noerr")
-	r2, err := starlark.Binary(syntax.MINUS, r1, Duration(d))
-	zzAssert(err == nil, "C19.probe.noerr2")
-	zzAssert(time.Time(r2.(Time)).Equal(time.Time(t)), "C19.probe.alg")
+// zzH19_durfloat_nan: duration / float with a quotient that is not a
+// representable duration (NaN divisor) must be rejected, not converted.
+func zzH19_durfloat_nan() {
+	x := zzI64("x_d")
+	_, err := starlark.Binary(syntax.SLASH, Duration(x), starlark.Float(math.NaN()))
+	zzObserve("failed", err != nil)
+	zzAssertExcept(err != nil, "C19.dispatch.dur_slash_float.nan_rejected", true)
 	zzReach("end")
 }
